@@ -422,7 +422,7 @@ Section Walk.
               let '(b, err) := render item it tns false in
               if err then
                 if absorbs_item_error item then
-                  let '(b2, s2) := loop rest false in (sep ++ b ++ b_null ++ b2, s2)
+                  let '(b2, s2) := loop rest false in (sep ++ b ++ b2, s2)
                 else (sep ++ b, Some (nl && negb (match p with [] => true | _ => false end)))
               else let '(b2, s2) := loop rest false in (sep ++ b ++ b2, s2)
             end in
@@ -435,7 +435,7 @@ Section Walk.
         | _ => ([], true)
         end
     | NObj p nl tyname possible inacc unresolvable fields =>
-      if unresolvable then ([], true) else
+      (* the unresolvable test is pre-walk only: the print walk renders what the pre-walk left *)
       let v := get_path p parent in
       if is_null_or_missing v then
         if nl then (b_null, false) else ([], true)
